@@ -1,7 +1,7 @@
 (* C05 — Swap pricing never beats the exact curve; rounding never favours the trader.
    Statements only; proofs in Amm/StepBounds.v. All quantities are raw decimals (x 10^18). *)
 From Coq Require Import ZArith.
-From Sunrise Require Import Base.Outcome Base.Dec Base.DecLemmas Amm.Math Amm.StepBounds Amm.StepWhole.
+From Sunrise Require Import Base.Outcome Base.Dec Base.DecLemmas Amm.Math Amm.StepBounds Amm.StepWhole Amm.StepBase.
 Local Open Scope Z_scope.
 
 (* next sqrt price is rounded in the pool's favour, for all four amount strategies *)
@@ -122,6 +122,31 @@ Theorem C05_step_quote_out_direction : forall fee sp target liq rem next out ain
 Proof. exact b4q_in_given_out_direction. Qed.
 Print Assumptions C05_step_quote_out_direction.
 
+(* the base-side amount (CalcAmountBaseDelta, truncating branch: three half-even roundings): never more
+   than the exact liq x (1/s_a - 1/s_b) plus half an ulp x (1 + 1/s_a + 1/(s_a s_b)) - at sqrt prices
+   >= 1 at most 1.5 ulp, below that growing like 1/price (the regime of finding C02-F1) *)
+Theorem C05_base_amount_upper : forall liq sa0 sb0 r,
+  0 <= liq -> 0 < sa0 -> 0 < sb0 ->
+  calc_amount_base_delta liq sa0 sb0 false = Some r ->
+  let sa := Z.min sa0 sb0 in let sb := Z.max sa0 sb0 in
+  0 <= r /\
+  r * P * sa * sb <= (sb - sa) * liq * (P * P) + HALF * (P * P) + HALF * sb * P + HALF * sa * sb.
+Proof. exact base_delta_upper. Qed.
+Print Assumptions C05_base_amount_upper.
+
+(* exact input, quote in, base out: a step ending inside its bucket pays out  out * s * n <= af + rounding
+   (s the price before, n >= s after, af what was left after the fee): never a better rate than the
+   spot price the step started from *)
+Theorem C05_step_quote_in_base_out_le : forall fee sp target liq rem next ain aout fc,
+  0 < sp -> 0 < liq -> 0 <= rem -> 0 <= fee < P -> sp <= target ->
+  q4b_out_given_in fee sp target liq rem = Some (next, ain, aout, fc) ->
+  next <> target ->
+  exists af, dmul rem (P - fee) = Some af /\ 2 * Z.abs (af * P - rem * (P - fee)) <= P /\
+    sp <= next /\ 0 <= aout /\
+    aout * P * sp * next <= af * P * (P * P) + HALF * (P * P) + HALF * next * P + HALF * sp * next.
+Proof. exact q4b_out_given_in_base_out_le. Qed.
+Print Assumptions C05_step_quote_in_base_out_le.
+
 Example C05_steps_nonvacuous :
   (exists n a o f, b4q_out_given_in 3000000000000000 P (P / 2) (12345678 * P) (1001 * P) = Some (n, a, o, f) /\ n <> P / 2 /\ 0 < o) /\
   (exists n a o f, q4b_out_given_in 3000000000000000 P (2 * P) (12345678 * P) (1001 * P) = Some (n, a, o, f) /\ n <> 2 * P /\ 0 < o) /\
@@ -131,8 +156,8 @@ Proof. exact step_whole_nonvacuous. Qed.
 
 (* The whole-swap statements of the property — output <= exact curve and within the stated bound,
    input >= exact, monotone output, no round-trip profit, price direction and limits — are NOT proved
-   here over the multi-bucket loop, nor for the base-side amounts of a step (they go through three
-   half-even roundings whose error depends on the price); they are the full statements below, checked on every implementation
+   here over the multi-bucket loop, nor for the base-side INPUT amounts of a step (rounded up after three half-even roundings
+   whose error depends on the price; only the upper bound of the paid-out side is proved above); they are the full statements below, checked on every implementation
    swap by monitors against an independent exact rational reference (Amm/Exact.v). PARTIAL. *)
 Definition C05_out_le_exact_full : Prop :=
   forall (impl_out exact_out_floor : Z), impl_out <= exact_out_floor.
